@@ -1,4 +1,4 @@
-from planlib import geo
+from planlib import geo, desc_fuzz
 
 
 def _c17(tier):
@@ -77,6 +77,7 @@ PLAN = dict(
                  "reim4_convolution_*_avx are declared in reim4_arithmetic.h but not defined by the library: only the _ref functions exist",
                  "oracle: x87 long double (64-bit significand) with an explicit (terms+2)*2^-63*S allowance for its own rounding"],
     quick=_c17("quick"), thorough=_c17("thorough"),
+    fuzz=desc_fuzz("C17", fix=dict(k=(0, 10))),
     required_classes=dict(all=["extract:ref", "save:ref", "m=4", "m=8", "m>=4096", "rows=0", "rows=1", "rows>=2",
                                "rows>8", "rows=64", "sl=2m", "sl>2m", "blk:all", "blk:generated", "blk:interior",
                                "dot:ref", "cfg:generic", "cfg:full",
